@@ -42,7 +42,11 @@ def candidates(seed):
             p = encoder.complete_message(ident, rnd, pat)
             if p is not None:
                 yield {"payload": p.hex()}
-    # many coefficients: degree/order 15
+    # many coefficients: the extreme degree / order field values (up to 153 cosine and 136 sine coefficients in one layer)
+    for dg, od in ((15, 15), (15, 10), (15, 11), (15, 0), (14, 14), (0, 0), (0, 3), (9, 9)):
+        p = encoder.igs_201_single_layer(rnd, dg, od)
+        if p is not None:
+            yield {"payload": p.hex()}
     import itertools
     for hdr in all_headers():
         yield {"payload": (hdr + bytes(rnd.randrange(256) for _ in range(12))).hex()}
